@@ -104,6 +104,30 @@ def XG.run (g : XG) : Nat → List XMsg → List XOut → XG × List XOut
     let (g', outs, back) := g.step m
     XG.run g' fuel (inbox ++ back) (acc ++ outs)
 
+/-! Layer 1: the inclusive JOIN of a flat block, counting abstraction of `trySync`: the awaiting set is the
+cohort of the fork's tokens that are still alive; each of them either arrives at the join or ends elsewhere
+(then the tracker removes it and the gateway recomputes). `live` counts cohort tokens that have done neither. -/
+
+inductive JEv where
+  | arrive     -- a token of the fork activation reaches the join
+  | ended      -- a token of the fork activation terminates elsewhere (branch ending before the join)
+deriving Repr, DecidableEq
+
+structure IJ where
+  live : Nat
+  arrived : Nat := 0
+  releases : Nat := 0
+deriving Repr, DecidableEq
+
+def IJ.fire (j : IJ) : IJ :=
+  if j.live == 0 && j.arrived != 0 then { j with arrived := 0, releases := j.releases + 1 } else j
+
+def IJ.step (j : IJ) : JEv → IJ
+  | .arrive => ({ j with live := j.live - 1, arrived := j.arrived + 1 } : IJ).fire
+  | .ended => ({ j with live := j.live - 1 } : IJ).fire
+
+def IJ.run (j : IJ) (evs : List JEv) : IJ := evs.foldl IJ.step j
+
 /-! Layer 1: the parallel gateway actor -/
 
 /-- gateway_parallel.go: `reportedIncomingFlows`, `awaitingActions` (token ids in arrival order) -/
